@@ -730,30 +730,31 @@ def damage_cases(rng, quick=True):
         add(B(), [cmd] + fl + ["-file=zz.go"], "fileMissing")
         add(B(), [cmd] + fl + sel + ["nosuchdir"], "dirMissing")
         # ---- generate phase ----
-        add(B(), [cmd] + fl + ["-type=Missing"], "typeMissing", outs=["x"] if cmd == "rest" else [])
-        add(B(), [cmd] + fl + ["-type=%s,Missing" % g0], "typeMissing", outs=["x"] if cmd in ("rest", "enum") else [])
+        add(B(), [cmd] + fl + ["-type=Missing"], "typeMissing")
+        add(B(), [cmd] + fl + ["-type=%s,Missing" % g0], "typeMissing", outs=["x"] if cmd == "enum" else [])
         wrong = {"new": "Pair2", "enum": "Name", "rest": "Plain", "map": "Name"}[cmd]
         b = B()
         if cmd == "new":
             sub(b, "b.go", "type Base struct", "type Pair2 map[string]int\n\ntype Base struct")
-        add(b, [cmd] + fl + ["-type=" + wrong], "wrongKind", outs=["x"] if cmd == "rest" else [])
+        add(b, [cmd] + fl + ["-type=" + wrong], "wrongKind")
         other = {"new": "Base", "enum": "Level", "rest": "Plain", "map": "User"}[cmd]
         add(B(), [cmd] + fl + ["-file=a.go", "-type=" + other], "notInFile")
         # ---- load phase ----
         b = B()
         b["files"][src_key(b, "zz.go")] = "package other\n\ntype Z struct{}\n"
         add(b, [cmd] + fl + sel, "twoPackages")
-        # ---- clean phase ----
+        # ---- clean phase: a matching file without a trailing newline / an empty one (Clean used to fail with io.EOF after
+        # the write; repaired in /repo 63484d4: a plain successful run now, asserted) ----
         b = B()
         tag = "shoot" + cmd
         b["files"][src_key(b, "z.%s.old.go" % tag)] = "package " + ("src" if cmd == "map" else "cs")   # no newline
-        add(b, [cmd] + fl + ["-type=*"], "cleanNoNewline", outs=["x"], stale=["z"])
+        add(b, [cmd] + fl + ["-type=*"], "none", outs=["x"], tags=["stale file without newline"])
         b = B()
         b["files"][src_key(b, "z.%s.old.go" % tag)] = ""
         if cmd == "rest":    # rest parses every file of the directory itself and stops at the empty one
             add(b, [cmd] + fl + ["-type=*"], "restParseFail", tags=["empty stale file"])
         else:
-            add(b, [cmd] + fl + ["-type=*"], "cleanNoNewline", outs=["x"], stale=["z"], tags=["empty stale file"])
+            add(b, [cmd] + fl + ["-type=*"], "none", outs=["x"], tags=["empty stale file"])
 
     # ---- sub-command specific ----
     add(base_new(), ["new", "-tagcase=x", "-type=User"], "badFlagValue")
